@@ -20,8 +20,9 @@ claimed={
  "C13":("exploration","§3 C13","independent rational validator of every accepted bank configuration (weights, isolated, oracle age, e-mode entries vs this bank's liability weights and the group's caps, killed state neither entered nor left) plus equal-price implication init-healthy => maint-healthy with the real pulse_health on forks"),
  "C14":("exploration","§3 C14","verdict table instruction kind x bank state x cached-pause region; state-level reading: while the cached pause is in force no vault balance or position of the group changes; refusals for a pause that is not in force are violations"),
  "C15":("exploration","§3 C15","adversarial fee-admin pause game under simulated time with boundary-targeted clocks; bounds on until, counters and resets after every step; bounded-liveness canary deposits on forks at cached expiry -1/0 and now+3600"),
- "C16":("exploration","§3 C16","structural invariants of every changed user account after every instruction plus history checks (tag permanence, transfer once, close preconditions, disabled accounts); integration-position cap reached through the real solend_deposit against a stub Solend venue (other venues' positions are byte fixtures)"),
+ "C16":("exploration","§3 C16","structural invariants of every changed user account after every instruction plus history checks (tag permanence, transfer once, close preconditions, disabled accounts); integration-position cap and tag rules reached through the real solend / kamino / drift deposits and withdrawals against stub venues"),
  "C19":("exploration","§3 C19","exact (rational) fee-collection arithmetic and bucket deltas, canonical recomputation of every destination, sanctioned-door check for every draw-down of fee / insurance / emissions vaults, emissions conservation and proportional accrual"),
+ "C20":("exploration","§3 C20","venue-bank worlds: staleness of the venue account under the simulated clock (never priced, never transacted on when not refreshed in the current slot / second), the real exchange-rate-adjusted price adapters probed on forks after every venue write and clock advance (one-sided bound against price x exact rate in exact rationals, derived truncation bound, monotonicity pairs, overflow must be reported), and 'no value from conversions' judged on every real venue deposit / withdrawal against independently computing stub venues (credit <= venue credit <= tokens paid, payout <= venue release, Drift burn >= mint of the same amount, bank claims <= venue position after every transaction, marginfi's expectation within its own tolerance of the exact venue result)"),
  "C17":("exploration","§3 C17","cap and utilisation post-conditions after every deposit/borrow/withdraw; 'up to limit never fails for capacity'; capacity +-2 probes on forks"),
 }
 checks=[]
@@ -40,7 +41,6 @@ na=[]
 for p in props:
     if p["id"] not in claimed:
         if p["id"]=="C18": r="pure function of (curve config, utilisation): no schedule, clock, fault or interleaving to simulate (DESIGN.md §5)"
-        elif p["id"]=="C20": r="pure integer conversion functions of third-party venue state; venues are not in this repository, a simulated venue would be entirely a stub (DESIGN.md §5)"
         else: r="check not built yet in this round (planned, DESIGN.md §8)"
         na.append({"property_id":p["id"],"reason":r})
 m={"version":1,
